@@ -5,5 +5,7 @@ CONSTANTS
   TzOffsets <- TzAll
   UtcRead = TRUE
   MaxRounds = 2
+  HashSets <- HsTwo
+  ShortcutChecksHashes = TRUE
 INVARIANT IncEqualsFull
 INVARIANT TimestampNotLate
